@@ -98,7 +98,7 @@ func checkC19(r *Result) []Violation {
 }
 
 func init() {
-	register(&propDef{ID: "C19", Gen: genC19, Check: checkC19, Foreign: foreignAtt,
+	register(&propDef{ID: "C19", Gen: genC19, Check: withCrashRule("C19", checkC19),
 		Interesting: func(r *Result) bool {
 			for _, e := range r.FSEffects {
 				if e.Op == "create" && !strings.HasSuffix(e.Path, "/file.log") {
